@@ -9,7 +9,7 @@ from progs import Item, Field, Variant, Program, t_prim
 NAMES = ['Foo', 'Bar', 'Baz', 'Item', 'UserId', 'Config', 'Point', 'Node', 'Color', 'Shape', 'Event', 'Payload', 'Account', 'Vault',
          'IdCard', 'ApiKey', 'Session', 'Token', 'HttpUrl', 'Wrapper']
 FIELDS = ['a', 'b', 'c', 'd', 'e', 'first', 'second', 'items', 'value', 'next', 'left', 'right', 'owner', 'kind2', 'data']
-VARIANTS = ['A', 'B', 'C', 'Ready', 'Failed', 'Leaf', 'Branch', 'Http2', 'IdOnly']
+VARIANTS = ['A', 'B', 'C', 'Ready', 'Failed', 'Leaf', 'Branch', 'Http2', 'IdOnly', 'XyZwQr']
 RENAME_STYLES = [lambda n: n + 'Renamed', lambda n: 'New' + n, lambda n: n + '2', lambda n: 'R' + n.lower(), lambda n: n[:1] + 'x' + n[1:]]
 # names that begin with a configured Kotlin/Swift prefix (OP, X_) or with a proper prefix of it (O, X): a printer that
 # treats "already prefixed" names specially at one site but not at another is only visible on such names
